@@ -34,6 +34,7 @@ def make_spec(seed, index, **opts):
         return corpus_spec(), {"corpus": 1}
     rng = random.Random("spec-%d-%d" % (seed, index))
     opts.setdefault("wu_bias", index % 2 == 0)
+    opts.setdefault("allow_empty", index % 5 == 3)
     sg = SpecGen(rng, **opts)
     sp = sg.generate()
     return sp, sg.features
